@@ -380,4 +380,21 @@ theorem cleared_out_of_range (idx : Nat) (ls : Bytes) (tx : Tx) (h : tx.inputs.l
       serialize false { tx with inputs := tx.inputs.map fun i => { i with unlocking := some [] } } := by
   simp [bytesWithClearedInputs, serialize, serInputsCleared_oob ls tx.inputs 0 idx (by omega)]
 
+/-- Tx.IsCoinbase, stated outright: exactly one input, spending the all-zero transaction id, with the output index or the
+    sequence number at 0xFFFFFFFF -/
+theorem isCoinbase_iff (tx : Tx) :
+    isCoinbase tx = true ↔
+      ∃ i, tx.inputs = [i] ∧ i.prevTxID = List.replicate 32 0 ∧ (i.vout = 0xffffffff ∨ i.sequence = 0xffffffff) := by
+  unfold isCoinbase
+  constructor
+  · intro h
+    split at h
+    · next i hi =>
+      simp only [Bool.and_eq_true, beq_iff_eq, Bool.or_eq_true] at h
+      exact ⟨i, hi, h.1, h.2⟩
+    · simp at h
+  · rintro ⟨i, hi, h1, h2⟩
+    simp only [hi, Bool.and_eq_true, beq_iff_eq, Bool.or_eq_true]
+    exact ⟨h1, h2⟩
+
 end GoBT.C01
